@@ -292,6 +292,34 @@ def run(ctx):
     stats["families"]["scoping"] = {"programs": len(jobs), "judged": len(res), "plans": plans}
     for regions in check.sample(jobs, 3):
         samples.append({"family": "scoping", "program": render(regions).split("\n"), "model": list(model(regions))[:2]})
+    # name lengths around the limit: a long label followed by other symbols, shadowed locally
+    nl_jobs = []
+    for L in (200, 253, 254, 255, 256, 300, 511):
+        long_name = "n" + "x" * (L - 1)
+        for variant in (0, 1):
+            regs = [("global", [("def", long_name), ("use", long_name), ("def", "after"), ("use", "after")]),
+                    ("scope" if variant == 0 else "func:fn", [("def", "after"), ("use", "after"), ("use", long_name), ("def", "zz"), ("use", "zz")]),
+                    ("global", [("use", "after"), ("def", "tail"), ("use", "tail"), ("use", long_name)])]
+            nl_jobs.append(regs)
+    nlc = {}
+    for regions, (src, kind, detail, xo) in zip(nl_jobs, R.pmap(_work_scope, nl_jobs, chunk=1)):
+        transitions += 1
+        if kind == "harness":
+            raise RuntimeError(detail)
+        L = len(regions[0][1][0][1])
+        if kind == "rejected-valid" and L >= 255:
+            # a name beyond the limit may be refused - but then it is refused on its own, too; if the name alone assembles,
+            # the rejection comes from what follows it
+            solo = run_scope_case([("global", [("def", regions[0][1][0][1]), ("use", regions[0][1][0][1])])])
+            if solo[1] == "rejected-valid":
+                nlc["refused(L=%d)" % L] = nlc.get("refused(L=%d)" % L, 0) + 1
+                continue
+        nlc[kind or "ok"] = nlc.get(kind or "ok", 0) + 1
+        states.add((src, kind, xo))
+        nontrivial += 1
+        if kind:
+            ctx.violation({"prog": src}, kind, "[label of %d characters] %s" % (L, detail), {"kind": "scope", "regions": regions})
+    stats["families"]["name-length"] = nlc
     # .set
     sj = list(set_cases())
     for (src, exp), (s2, kind, detail) in zip(sj, R.pmap(_work_set, sj, chunk=8)):
